@@ -145,12 +145,36 @@ func ruleR16b(h *H) {
 			// key construction: Sprintf inside a loop over request.SequenceKeyDelta
 			var builds []ssa.Instruction
 			var deltaElems []ssa.Value
+			// the key handed out on success is carried around the loop: its in-loop definitions
+			// are the construction steps (Sprintf or an extracted formatting helper)
+			seenB := map[ssa.Instruction]bool{}
 			ir.Instrs(fn, func(in ssa.Instruction) {
-				if c := ir.CallOf(in); c != nil {
-					if f := c.StaticCallee(); f != nil && f.Name() == "Sprintf" && len(in.Block().Preds) > 0 && inLoopBlock(in.Block()) {
-						builds = append(builds, in)
+				ret, isRet := in.(*ssa.Return)
+				if !isRet || len(ret.Results) != 2 || !returnErrMayBeNil(ret) {
+					return
+				}
+				var walk func(v ssa.Value, d int)
+				seenP := map[*ssa.Phi]bool{}
+				walk = func(v ssa.Value, d int) {
+					c := ir.Canon(v)
+					if phi, ok := c.(*ssa.Phi); ok {
+						if seenP[phi] || d > 6 {
+							return
+						}
+						seenP[phi] = true
+						for _, e := range phi.Edges {
+							walk(e, d+1)
+						}
+						return
+					}
+					if call, ok := c.(*ssa.Call); ok && inLoopBlock(call.Block()) && !seenB[call] {
+						seenB[call] = true
+						builds = append(builds, call)
 					}
 				}
+				walk(ir.ReturnValues(ret)[0], 0)
+			})
+			ir.Instrs(fn, func(in ssa.Instruction) {
 				if u, ok := in.(*ssa.UnOp); ok && u.Op == token.MUL {
 					if ia, ok := u.X.(*ssa.IndexAddr); ok && isMsgField(ia.X, "PutRequest", "SequenceKeyDelta") {
 						deltaElems = append(deltaElems, u)
@@ -341,7 +365,7 @@ func ruleR16f(h *H) {
 		return
 	}
 	for _, s := range sites {
-		v := throughHelperResult(s.v)
+		v, bind := throughHelperResult(s.v)
 		parts, ok := ir.SymString(v)
 		if !ok || len(parts) == 0 {
 			h.Unknown(rule, s.name, h.pos(s.in), "cannot evaluate the bound symbolically")
@@ -360,7 +384,7 @@ func ruleR16f(h *H) {
 			}
 			break
 		}
-		k, isK := stripConv(ir.Canon(lv)).(*ssa.Const)
+		k, isK := stripConv(ir.Canon(bind(stripConv(ir.Canon(lv))))).(*ssa.Const)
 		if !isK || k.Value == nil {
 			h.Unknown(rule, s.name, h.pos(s.in), "the numeric part of the bound is not a constant: "+ir.Describe(lv))
 			continue
@@ -371,8 +395,10 @@ func ruleR16f(h *H) {
 }
 
 // throughHelperResult follows a value that is the (i-th) result of a repository helper
-// with a single return statement to the returned expression.
-func throughHelperResult(v ssa.Value) ssa.Value {
+// with a single return statement to the returned expression; bind maps a parameter of
+// that helper to the argument of this very call (context of the call at hand).
+func throughHelperResult(v ssa.Value) (ssa.Value, func(ssa.Value) ssa.Value) {
+	ident := func(x ssa.Value) ssa.Value { return x }
 	idx := 0
 	c := ir.Canon(v)
 	if ex, ok := c.(*ssa.Extract); ok {
@@ -381,11 +407,11 @@ func throughHelperResult(v ssa.Value) ssa.Value {
 	}
 	call, ok := c.(*ssa.Call)
 	if !ok {
-		return v
+		return v, ident
 	}
 	f := call.Call.StaticCallee()
 	if f == nil || f.Blocks == nil || !ir.InRepo(f) {
-		return v
+		return v, ident
 	}
 	var rets []*ssa.Return
 	ir.Instrs(f, func(in ssa.Instruction) {
@@ -394,7 +420,17 @@ func throughHelperResult(v ssa.Value) ssa.Value {
 		}
 	})
 	if len(rets) != 1 || idx >= len(rets[0].Results) {
-		return v
+		return v, ident
 	}
-	return rets[0].Results[idx]
+	bind := func(x ssa.Value) ssa.Value {
+		if p, ok := x.(*ssa.Parameter); ok && p.Parent() == f {
+			for i, fp := range f.Params {
+				if fp == p && i < len(call.Call.Args) {
+					return call.Call.Args[i]
+				}
+			}
+		}
+		return x
+	}
+	return rets[0].Results[idx], bind
 }
